@@ -229,7 +229,8 @@ def templates():
     add('reshape-notranspose-refused', 'reshape_case', cost=0.3, shape=[2, 3, 2], target=[[1, 0], [2]], transpose=False)
     add('reshape-mixed-kinds', 'reshape_case', cost=0.3, shape=[2, 2], target=[[1, 0]], lkinds=['i', 'U'])
     for func in ('mean', 'sum', 'median', 'max', 'argmax', 'argmin', 'cumsum'):
-        for sh, group in (([2, 3, 2], [0, 2]), ([2, 3, 2], [2, 0]), ([2, 3, 2], [1, 0]), ([2, 2], [1, 0]), ([2, 1, 2, 3], [3, 0]), ([2, 2, 2, 2], [0, 3, 2])):
+        for sh, group in (([2, 3, 2], [0, 2]), ([2, 3, 2], [2, 0]), ([2, 3, 2], [1, 0]), ([2, 2], [1, 0]), ([2, 1, 2, 3], [3, 0]), ([2, 2, 2, 2], [0, 3, 2]),
+                          ([2, 2, 2], [0, 1]), ([2, 2], [0, 1]), ([2, 2, 2], [1, 2])):      # leading / all / trailing dimensions in storage order: flatten() is a view there
             if func.startswith('arg') and len(sh) == 4:
                 continue
             add('tuple-%s-%s-g%s' % (func, 'x'.join(map(str, sh)), ''.join(map(str, group))), 'tuple_reduce', cost=0.3 if not func.startswith('arg') else 15, shape=sh, group=group, func=func)
